@@ -158,9 +158,26 @@ fn case_t<T: Sc>(rng: &mut Rng, case: u64, out: &mut CaseOut) {
     }
 }
 
+/// the same monitor inside a child process of another build profile (release: no debug assertions,
+/// no overflow checks) - the documented panic and the values must not depend on the profile
+pub fn worker_case(rng: &mut Rng, case: u64, out: &mut CaseOut, _ops: &crate::procmon::OpLog) {
+    if case % 4 == 0 {
+        case_t::<f32>(rng, case, out)
+    } else {
+        case_t::<f64>(rng, case, out)
+    }
+}
+
 pub fn run(ctx: &Ctx) {
-    ctx.rule("successful fit_with_statistics results (same three classes as C13; degrees of freedom 1..30 on purpose, weighted and unweighted, f32/f64) x 40 probabilities in (0,1) including 1e-6 and 1-1e-6: length N, every entry finite and >= 0, non-decreasing in p; where the normal matrix is numerically positive definite the squared radius is compared with t_oracle((1+p)/2; N-M-P)^2 · j_i^T Cov j_i using the unweighted oracle Jacobian row and the library's own covariance; p in {0,1,-0.1,1.5,NaN,+-inf} must panic. distinct = problem hash");
+    ctx.rule("successful fit_with_statistics results (same three classes as C13; degrees of freedom 1..30 on purpose, weighted and unweighted, f32/f64) x 40 probabilities in (0,1) including 1e-6 and 1-1e-6: length N, every entry finite and >= 0, non-decreasing in p; where the normal matrix is numerically positive definite the squared radius is compared with t_oracle((1+p)/2; N-M-P)^2 · j_i^T Cov j_i using the unweighted oracle Jacobian row and the library's own covariance; p in {0,1,-0.1,1.5,NaN,+-inf} must panic. The stream is run in-process (checked profile: debug assertions and overflow checks on) and again in child processes of the release profile. distinct = problem hash");
     ctx.assume("the oracle's Student-t quantile is the harness's own (incomplete beta + bisection, self-tested against a committed scipy table); relative tolerance 4e-4 absorbs the library's third-party quantile approximation");
     let t = ctx.tier;
     ctx.run_cases("fits", t.pick(8000, 240000), t.pick(20.0, 900.0), |r, c, o| if c % 4 == 0 { case_t::<f32>(r, c, o) } else { case_t::<f64>(r, c, o) });
+    // the same monitor under the release profile (child processes)
+    let exe = crate::procmon::exe_for_profile("release");
+    if std::path::Path::new(&exe).exists() {
+        crate::procmon::run_in_children(ctx, &exe, "release", "fits-release", t.pick(3000, 60000), 20.0, t.pick(120.0, 900.0));
+    } else {
+        ctx.harness_error(format!("worker binary for profile release missing: {exe}"));
+    }
 }
